@@ -39,7 +39,7 @@ type Hold struct {
 	At       time.Time
 	Done     bool
 	Released bool
-	HeldFor  time.Duration // fake time the goroutine was kept parked (set at release)
+	HeldFor  time.Duration // fake time the goroutine was kept parked (set at release, corrected when it gets the lock)
 }
 
 type Stats struct {
@@ -302,6 +302,13 @@ func (r *Run) Settle() {
 		}
 		if !r.Sched.Grant(cand[idx]) {
 			r.Troublef("grant of enabled waiter failed: %s", cand[idx].Sig)
+		}
+		for _, h := range r.Holds {
+			if h.W == cand[idx] && h.Released {
+				// a hold released by its step count while the driver was about to sleep only gets going at the next
+				// wake-up: what counts is how long the goroutine really stayed parked
+				h.HeldFor = time.Since(h.At)
+			}
 		}
 		r.Stats.SchedSteps++
 		if r.Stats.SchedSteps > r.maxSched {
